@@ -37,7 +37,8 @@ MANIFEST = {
             'if requested; all component threads alive; the second wave '
             'completes.'
             '  Second session: endings include a process group killed by a signal RP did not send (must end FAILED with a non-zero exit code); waits are activity based (no transport event for 12 s after the budget = stuck, busy at 240 s = inconclusive).'
-            '  Third session: fate cancel_exit sends the cancel request when the task process is just ending (its last action is a marker file; the request follows 4-45 ms later), i.e. between exit and collection by the executor; deliveries of the executor\'s periodic empty publication do not count as activity.',
+            '  Third session: fate cancel_exit sends the cancel request when the task process is just ending (its last action is a marker file; the request follows 4-45 ms later), i.e. between exit and collection by the executor; deliveries of the executor\'s periodic empty publication do not count as activity.'
+            '  A third of the histories submit before / while the task manager learns about its pilots, with tasks which name their pilot (early binding).',
     'note': 'threads and processes are real (statistical reproduction); '
             '"eventually final" is restated as: final before a generous '
             'watchdog while nothing is running any more; the PMGR/bootstrap '
